@@ -598,6 +598,14 @@ func (r *Run) Apply(op wx.Op) wx.Result {
 		// the model is unchanged; the state oracle will compare the world against it.
 		return wx.Result{}
 	}
+	// the statistics object is cached inside the world and refreshed incrementally: poll it after every operation, as a
+	// monitoring system would (the state oracle compares it with the model)
+	if r.cfg.Oracles&OState != 0 && !r.w.IsLocked() {
+		func() {
+			defer func() { _ = recover() }()
+			_ = r.w.Stats()
+		}()
+	}
 	// ClsOK
 	if pv != nil {
 		r.poisoned = true
